@@ -15,7 +15,7 @@ ENGINES = [
                        "system on the edited assignment with forward re-derivation of dependent hints; shadow lies "
                        "re-executed through the library with ignore_errors on); the verifier is constraint evaluation"},
     {"name": "tracesim", "path": "sim/tracesim.py",
-     "serves_properties": ["C01", "C04", "C06", "C07", "C08", "C09", "C10", "C11"],
+     "serves_properties": ["C01", "C04", "C06", "C07", "C08", "C09", "C10", "C11", "C15", "C17"],
      "kind_free_text": "in-process deterministic simulation: seeded plan (program + inputs + fault schedule) "
                        "generated as data, compiled to Python source, executed against a fresh import of the real "
                        "pysnark with the real backend module wrapped by a recorder; invariants after every event"},
@@ -39,6 +39,17 @@ _P = "seeded search over lying-prover fault schedules (deterministic simulation,
 _X = "seeded search over crash points x termination modes x configurations, one fresh interpreter per run (deterministic simulation, crash injection)"
 
 CHECK_META = {
+    "C15": {"engine": "tracesim+proversim", "design_ref": "3/C15", "technique": _T + "; Python-list reference model; twin on index; lying prover",
+            "text": "read/write histories vs a Python-list model executed from the same generated source, compared after "
+                    "every operation; twin on the index value for the constraint system; out-of-range index against a "
+                    "prover without the Python check; sampling",
+            "note": "arrays up to 5 / 4x3, histories up to 8 operations"},
+    "C17": {"engine": "tracesim", "design_ref": "3/C17", "technique": _T + "; ordered public-wire log; fault injection on the public assignment",
+            "text": "sequences of wrapped calls; ordered log of public allocations during each call vs flattened "
+                    "arguments/results; native twin for the return value; each output's public value tampered alone; "
+                    "sampling",
+            "note": "function bodies are small expressions over the argument leaves (+ - * comparisons boolean ops) "
+                    "whose traced and native semantics coincide"},
     "C09": {"engine": "tracesim", "design_ref": "3/C09", "technique": _T + "; native-control-flow twin as reference model",
             "text": "histories of branch-stack events (enter / elif / else / exit / loop iteration / break) generated as "
                     "plans; the same plan is emitted as oblivious code and as native control flow on plain ints; final "
